@@ -3,6 +3,8 @@ package main
 // C18 — the Set*/Get* pairs whose options are one structure (generic engine in c18.go).
 
 import (
+	"math"
+	"strconv"
 	"strings"
 
 	xl "github.com/xuri/excelize/v2"
@@ -83,6 +85,12 @@ func c18Pairs() []*c18Pair {
 			},
 			set: func(f *xl.File, o interface{}) error { return f.SetSheetProps(c18Sheet, o.(*xl.SheetPropsOptions)) },
 			get: func(f *xl.File) (interface{}, error) { return f.GetSheetProps(c18Sheet) },
+			sig: func(k string, o map[string]string) string {
+				if k == "AutoPageBreaks" && o[k] == "~" && o["FitToPage"] != "~" {
+					return ":unset-with-FitToPage"
+				}
+				return ""
+			},
 		},
 		{
 			name: "sheetview",
@@ -95,6 +103,21 @@ func c18Pairs() []*c18Pair {
 			},
 			set: func(f *xl.File, o interface{}) error { return f.SetSheetView(c18Sheet, -1, o.(*xl.ViewOptions)) },
 			get: func(f *xl.File) (interface{}, error) { return f.GetSheetView(c18Sheet, -1) },
+			sig: func(k string, o map[string]string) string {
+				switch k {
+				case "ZoomScale":
+					if b, err := strconv.ParseUint(strings.TrimPrefix(o[k], "f="), 16, 64); err == nil {
+						if z := math.Float64frombits(b); z < 10 || z > 400 {
+							return ":out-of-range"
+						}
+					}
+				case "View":
+					if v := unhx(strings.TrimPrefix(o[k], "s=")); v != "normal" && v != "pageLayout" && v != "pageBreakPreview" {
+						return ":invalid-value"
+					}
+				}
+				return ""
+			},
 		},
 		{
 			name: "margins",
@@ -123,6 +146,12 @@ func c18Pairs() []*c18Pair {
 			},
 			set: func(f *xl.File, o interface{}) error { return f.SetPageLayout(c18Sheet, o.(*xl.PageLayoutOptions)) },
 			get: func(f *xl.File) (interface{}, error) { return f.GetPageLayout(c18Sheet) },
+			sig: func(k string, o map[string]string) string {
+				if k == "FirstPageNumber" && o[k] == "u=0" {
+					return ":zero"
+				}
+				return ""
+			},
 		},
 		{
 			name: "headerfooter",
